@@ -1,6 +1,6 @@
 #!/bin/bash
 # usage: seedingest.sh <PROP> <worktree>  -> moves worktree to current /repo HEAD, confirms seeds 1,2, stores confirmed ones under seeded/<PROP>-<n>
-P=$1; WT=$2; V=/verif
+P=$1; WT=$2; OFF=${3:-0}; V=/verif
 HEAD=$(git -C /repo rev-parse HEAD)
 ( cd $WT && git checkout -q -- . 2>/dev/null; git checkout -q --detach $HEAD ) || exit 2
 for n in 1 2; do
@@ -9,10 +9,10 @@ for n in 1 2; do
   OUT=$(bash $V/tools/seedconfirm.sh $WT $SD 2>&1)
   echo "== $P-$n"; echo "$OUT"
   if echo "$OUT" | grep -q "suite_failing_groups=0 doc_failing_groups=0" && echo "$OUT" | grep "demo_with_patch" | grep -qv " 0 failed" && echo "$OUT" | grep "demo_without_patch" | grep -q " 0 failed"; then
-    D=$V/seeded/$P-$n; mkdir -p $D
+    D=$V/seeded/$P-$((n+OFF)); mkdir -p $D
     cp $SD/patch.diff $SD/demo.rs $D/; [ -f $SD/notes.md ] && cp $SD/notes.md $D/
     printf '{"property": "%s", "source": "fresh sub-agent given only the property text", "confirmed_at": "%s", "confirm": %s}\n' $P $HEAD "$(echo "$OUT" | python3 -c 'import sys,json; print(json.dumps(sys.stdin.read()))')" > $D/meta.json
-    echo "CONFIRMED $P-$n"
+    echo "CONFIRMED $P-$((n+OFF))"
   else
     echo "NOT-CONFIRMED $P-$n"
   fi
